@@ -83,10 +83,6 @@ def check_set_tweak(prog, an, rep, cn, name, f, c, decl):
             for j, o in enumerate(i["ops"]):
                 if o[0] in ("i", "a") and is_field(o) and any(l.addr.root == ("arg", j) for cs in gs.cls.values() for (l, w) in cs.may.values()):
                     prov_bad = (i, "%s writes computed bytes into it" % g.name)
-    if prov_bad:
-        rep.violation("C04.R3", cons + ":provenance", f.loc(prov_bad[0]), "the stored tweak is not kept as 'argument bytes followed by zeros': %s, so the remembered tweak no longer equals the last tweak set and later changes depend on earlier tweaks" % prov_bad[1], cfg=cn)
-    else:
-        rep.ok("C04.R3", cons + ":provenance", fsite(f), "the tweak field is only written by copies of the caller's bytes and zero fills", cfg=cn)
     # ---- R1: what the passes xor into the schedule (byte-range XOR algebra, c04_alg)
     sidx = [k for k, p in enumerate(decl["params"]) if p["name"] in ("tweak_size", "size")]
     ksoff = None
@@ -195,6 +191,34 @@ def check_set_tweak(prog, an, rep, cn, name, f, c, decl):
                 rep.ok("C04.R1", cons, fsite(f), "copy(old) -> rewrite field -> xor(old copy), xor(field) through %s" % xor_calls[0]["callee"][1], cfg=cn)
             return True
         old_idiom()
+    # R3 from the algebra when it knows the final content of the field on every success path: the stored tweak
+    # must be the zero-padded new tweak (all zero for NULL), however it was put there
+    alg_field = None
+    if res is not None:
+        fs = [(r["null"], r["field"]) for r in res if r["success"] is not False]
+        if fs and all(fr is not None and fr.get("head") is not None and fr.get("tail") is not None for (_, fr) in fs):
+            alg_field = fs
+    if alg_field is not None:
+        badf = [(nl, fr) for (nl, fr) in alg_field if not (fr["tail"] == frozenset() and fr["head"] == (frozenset() if nl else frozenset(["ARG"])))]
+        if badf:
+            nl, fr = badf[0]
+            def show(x):
+                return "0" if not x else " ^ ".join(sorted({"OLD": "old tweak", "ARG": "new tweak"}[t] for t in x))
+            rep.violation("C04.R3", cons + ":provenance", fsite(f), "after set_tweak%s the stored tweak holds (%s) in its first tweak_size bytes and (%s) in the rest instead of the new tweak followed by zeros: the remembered tweak no longer equals the last tweak set and later changes depend on earlier tweaks" %
+                          (" with a NULL tweak" if nl else "", show(fr["head"]), show(fr["tail"])), cfg=cn)
+        else:
+            rep.ok("C04.R3", cons + ":provenance", fsite(f), "on every success path the stored tweak ends up as the caller's bytes followed by zeros (byte-range algebra)", cfg=cn)
+        if ("a", tidx) in s.needs_nonnull:
+            rep.violation("C04.R3", cons + ":null", csite(s.needs_nonnull[("a", tidx)]), "a NULL tweak (documented to mean the all-zero tweak) is dereferenced: %s" % s.needs_nonnull[("a", tidx)], cfg=cn)
+        else:
+            rep.ok("C04.R3", cons + ":null", fsite(f), "a NULL tweak is never dereferenced; that path zero-fills the field", cfg=cn)
+        if not badf:
+            rep.ok("C04.R3", cons, fsite(f), "stored tweak := argument bytes followed by zeros on every success path (all %d bytes defined)" % tsz, cfg=cn)
+        return
+    if prov_bad:
+        rep.violation("C04.R3", cons + ":provenance", f.loc(prov_bad[0]), "the stored tweak is not kept as 'argument bytes followed by zeros': %s, so the remembered tweak no longer equals the last tweak set and later changes depend on earlier tweaks" % prov_bad[1], cfg=cn)
+    else:
+        rep.ok("C04.R3", cons + ":provenance", fsite(f), "the tweak field is only written by copies of the caller's bytes and zero fills", cfg=cn)
     # R3 normalisation
     obj = (("arg", 0), ())
     succ = [e for e in fl.exits if e[0] in ("nz", "?")]
@@ -301,7 +325,7 @@ def run_config(ctx, rep, cfg):
         if not sel:
             continue
         # per path: tweak null? -> flag constant of the first 4-argument call, and its key argument
-        for path in enum_paths(f):
+        for path in enum_paths(f, limit=4000, collapse_loops=True):
             tweak_null = None
             calls = []
             for n, b in enumerate(path):
